@@ -15,8 +15,7 @@ use zbus::fdo::RequestNameFlags;
 
 use crate::{
     fakebus::{Call, FakeBus, DRIVER, DRIVER_PATH, ME},
-    probe::connect,
-    sched::{quiesce, Slot},
+    sched::{connect, quiesce, Slot},
 };
 
 pub const NAME: &str = "com.example.Mine";
@@ -28,7 +27,7 @@ fn code_of(s: &str) -> u32 {
         "InQueue" | "NonExistent" => 2,
         "Exists" | "NotOwner" => 3,
         "AlreadyOwner" => 4,
-        _ => panic!("unknown reply code {s}"),
+        _ => panic!("HARNESS: unknown reply code {s}"),
     }
 }
 
@@ -89,7 +88,7 @@ pub fn run_case(case: &J) -> J {
                             "allow" => a,
                             "replace" => r,
                             "dnq" => d,
-                            x => panic!("unknown flag {x}"),
+                            x => panic!("HARNESS: unknown flag {x}"),
                         };
                     }
                     log.push(json!({"k":"call","op":"req","flags":names,"bits":f.bits()}));
@@ -141,7 +140,7 @@ pub fn run_case(case: &J) -> J {
                 settle!();
                 log.push(json!({"k":"q"}));
             }
-            k => panic!("unknown event kind {k}"),
+            k => panic!("HARNESS: unknown event kind {k}"),
         }
     }
     if let Some((_, op)) = slot.take() {
